@@ -4,6 +4,7 @@ import gen as G
 import conv
 
 COQ_IMPORTS = ['Model.NFA', 'Model.PDA', 'Judge.C09_judge']
+LOG_SAFE = True      # no printed output is read back: the recycling pass runs with GambaTools.enable_logging = True
 RULE = ('random PDAs (1-4 states, input {a,b}, stack {x,y}, epsilon in {_, ε, \'\'}) with push / pop / no-op / replace moves, epsilon moves and epsilon cycles that do or do not grow the stack, '
         'and hand-written families (a^n b^n, pushing epsilon loops); pda_epsilon_closure_max_iterations in {1,2,5,50,1000} and, on a chain of 1100 epsilon moves, limits above the default (1200) (in {1,2,5,20,40} when the PDA has a pushing epsilon move, to bound the evaluation cost of unbounded closures); all words <= 2 (3 for one symbol) plus random words <= 5; under 2 (quick) / 8 (thorough) PYTHONHASHSEED values. '
         'Observed: pda_accepts_word, pda_epsilon_closure of sampled configuration sets, pda_do_transition, pda_can_pop_push, pda_pop_push. Relation: below the limit (model closure not truncated) exact equality; '
